@@ -460,7 +460,9 @@ Proof.
   - (* sleep *) intros H; inversion H; subst; apply T_nil.
   - (* checkpoint *)
     destruct (any_bundling P D s); [intros H; inversion H; subst; apply T_nil|].
-    destruct (deferred P D (reset_checkpoint P D s)); intros H; inversion H; subst; apply reset_checkpoint_T.
+    set (s0 := match cache P D s with None => set_cache P D s (Some []) | Some _ => s end).
+    assert (Ea0 : abs s0 = abs s) by (unfold s0; destruct (cache P D s); reflexivity).
+    destruct (deferred P D (reset_checkpoint P D s0)); intros H; inversion H; subst; rewrite <- Ea0; apply reset_checkpoint_T.
   - (* clear_checkpoint *)
     intros H; inversion H; subst. unfold map_bundlers. rewrite abs_set_bundlers. autorewrite with absdb.
     rewrite (abl_map b_clear_ckpt a_clear) by reflexivity. apply (T_clear (abs s)).
